@@ -131,7 +131,7 @@ int main(void)
         size_t L = strlen(line);
         while (L && (line[L-1] == '\n' || line[L-1] == '\r')) line[--L] = 0;
         if (strncmp(line, "seq ", 4)) continue;
-        int prefill = 0xA5; char *its = NULL;
+        int prefill = 0xA5, has_rep = 0; char *its = NULL;
         snprintf(cur_id, sizeof(cur_id), "?");
         for (char *sv = NULL, *tok = strtok_r(line + 4, " ", &sv); tok; tok = strtok_r(NULL, " ", &sv)) {
             if (!strncmp(tok, "id=", 3)) snprintf(cur_id, sizeof(cur_id), "%s", tok + 3);
@@ -139,10 +139,10 @@ int main(void)
             else if (!strncmp(tok, "items=", 6)) its = tok + 6;
             else if (!strncmp(tok, "rep=", 4)) { /* rep=N:ITEM expands to N copies (long transient runs) */
                 long n = atol(tok + 4); char *c = strchr(tok, ':');
-                nitems = 0; for (long i = 0; i < n && nitems < MAXITEMS - 8; i++) items[nitems++] = c + 1;
+                has_rep = 1; nitems = 0; for (long i = 0; i < n && nitems < MAXITEMS - 8; i++) items[nitems++] = c + 1;
             }
         }
-        if (its) { if (!strstr(line, "rep=")) nitems = 0;
+        if (its) { if (!has_rep) nitems = 0;
             for (char *sv = NULL, *t = strtok_r(its, ",", &sv); t && nitems < MAXITEMS; t = strtok_r(NULL, ",", &sv)) items[nitems++] = t; }
         pos = 0; ncalls_total = 0;
         for (int i = 0; i < 32; i++) osbytes[i] = (unsigned char)(0x30 + i + (cur_id[0] & 7));
